@@ -114,8 +114,13 @@ macro_rules! lens {
 fn main() {
     let args = Args::parse();
     let mut st = Stats::new("hex", &args);
-    lens!(&mut st, args, [0, 1, 2, 3, 4, 5, 6, 7, 8, 9, 10, 11, 12, 13, 14, 15, 16, 17, 31, 32, 33, 255, 256, 1023, 1024]);
-    if args.maxn >= 4096 {
+    let only_big = args.kv.contains_key("only_big");
+    if !only_big {
+        lens!(&mut st, args, [0, 1, 2, 3, 4, 5, 6, 7, 8, 9, 10, 11, 12, 13, 14, 15, 16, 17, 31, 32, 33, 255, 256, 1023, 1024]);
+    }
+    if args.kv.get("big_n").map(|s| s.as_str()) == Some("1025") {
+        t_hex::<Sum<U1024, U1>>(&mut st, &args);
+    } else if args.maxn >= 4096 {
         t_hex::<Sum<U1024, U1>>(&mut st, &args); // 1025
         t_hex::<U2047>(&mut st, &args);
         t_hex::<U2048>(&mut st, &args);
